@@ -33,3 +33,14 @@ Lemma directive_phases :
   phase_of n_add_route_connect = Some default_order /\
   (phase0 < phase1 < phase2)%Z /\ (phase2 < phase3)%Z /\ phase3 = default_order.
 Proof. vm_compute. repeat split; reflexivity. Qed.
+
+(* PredicateList.make: the weight of the predicate at position n (regenerated from the expression in
+   `weights.append(...)`) is a power of two, and different positions get different powers -- so the OR of the
+   weights of a predicate set determines the set, and sets differing in one member never get the same score *)
+Definition pow2 (w : N) : bool := negb (N.eqb w 0) && N.eqb (N.land w (w - 1)) 0.
+Fixpoint pairwise_disjoint (l : list N) : bool :=
+  match l with [] => true | w :: r => forallb (fun v => N.eqb (N.land w v) 0) r && pairwise_disjoint r end.
+Lemma predicate_weights_are_distinct_bits :
+  forallb pow2 pred_weights = true /\ pairwise_disjoint pred_weights = true /\
+  (13 <= length default_view_preds <= length pred_weights)%nat.
+Proof. vm_compute. repeat split; try reflexivity; repeat constructor. Qed.
